@@ -46,6 +46,7 @@ type opaque struct {
 	tag  string
 	id   int
 	info any
+	text *textBlob // errors: the modelled text of Error() (nil: unknown, named by the tag)
 }
 
 // Str is a bounded byte vector. Invariant for symbolic strings: bytes at index >= Len are 0.
